@@ -32,7 +32,7 @@ ASSUMPTIONS = [
     "watchdog aborts (a task blocked on a real lock held by a parked thread) are inconclusive, never violations",
     "context_behavior and template_cache_size are process-wide settings, fixed per case",
 ]
-BOUNDS = {"quick": {"hyp": 480, "single_pairs": 15, "double_pairs": 5}, "thorough": {"hyp": 40000, "single_pairs": 27, "double_pairs": 5}}
+BOUNDS = {"quick": {"hyp": 480, "single_pairs": 16, "double_pairs": 5}, "thorough": {"hyp": 40000, "single_pairs": 28, "double_pairs": 5}}
 CFG = {"provide": True, "inject": True, "errors": False, "isfilled": False, "max_nodes": 3, "max_comps": 2, "max_depth": 2, "provide_weight": 3, "inject_pct": 70, "ticks": True, "hooks": False, "elems": True, "idecho": True}
 
 CFG_ASSETS = {"assets": True, "errors": False, "isfilled": False, "max_nodes": 3, "max_comps": 3, "max_depth": 2, "elems": True}
@@ -117,6 +117,17 @@ def build_tasks(case):
 
             def run(x=t["x"]):
                 tpl = cached_template('{% component "vf_dx" val="{{ x }}!" n=x|length / %}')
+                return normalize_ids(tpl.render(Context({"x": x})))
+
+            tasks.append(run)
+        elif kind == "sharedtpl":
+            # both tasks render ONE compiled Template (as a cached loader hands it out) whose component tag has a body that
+            # reads variables of the caller's context; each thread has its own Context
+            if "vf_box" not in registry.all():
+                registry.register("vf_box", type("VfBox", (Component,), {"template": "<u>{% slot 's' default %}d{% endslot %}|{{ own }}</u>", "get_context_data": lambda self, own="": {"own": own}}))
+
+            def run(x=t["x"]):
+                tpl = cached_template('{% with y=x %}{% component "vf_box" own=x %}{{ x }}-{{ y }}{% endcomponent %}{% endwith %}')
                 return normalize_ids(tpl.render(Context({"x": x})))
 
             tasks.append(run)
@@ -512,6 +523,7 @@ FIXED_PAIRS = [
     {"tasks": [{"t": "deps", "program": _ASSETS_INH, "shared": "sh", "type": "document"}, {"t": "deps", "program": _ASSETS_INH, "shared": "sh", "type": "document"}], "mode": "django", "cache_size": 2, "yield": "all", "yield_files": ["component_media.py"]},
     {"tasks": [{"t": "dynexpr", "x": "Aa"}, {"t": "dynexpr", "x": "B"}], "mode": "django", "cache_size": 2, "yield": "all", "yield_files": ["util/tag_parser.py", "expression.py", "util/template_tag.py"]},
     {"tasks": [{"t": "sharedinst", "x": "A"}, {"t": "sharedinst", "x": "B"}], "mode": "django", "cache_size": 2, "yield": "all", "yield_files": ["component.py"]},
+    {"tasks": [{"t": "sharedtpl", "x": "A"}, {"t": "sharedtpl", "x": "B"}], "mode": "isolated", "cache_size": 2, "yield": "all", "yield_files": ["component.py"]},
     {"tasks": [{"t": "render", "program": _ELEM}, {"t": "render", "program": _ELEM}], "mode": "django", "cache_size": 2},
     {"tasks": [{"t": "render", "program": _ELEM}, {"t": "fail", "program": _ELEM, "at": 3}], "mode": "isolated", "cache_size": 2},
     {"tasks": [{"t": "compile", "srcs": [0, 0, 0, 0]}, {"t": "compile", "srcs": [1, 2, 1, 3]}], "mode": "django", "cache_size": 1},
